@@ -27,6 +27,7 @@ var skeletonFuncs = []string{
 	"state.clone", "state.appendHandler", "state.removeHandler", "state.pickMethodHandler",
 	"Mux.registerService", "Mux.RegisterConn", "Mux.DropConn", "Mux.ServeHTTP", "Mux.serveHTTP", "Mux.serveGRPC", "Mux.serveGRPCWeb", "Mux.encError",
 	"params.set", "method.parseQueryParams", "fieldPath", "NewServer", "createConnHandler",
+	"parseParam", "quote", "streamHTTP.getCodec", "Mux.match",
 }
 
 func leanIdent(fn string) string {
